@@ -18,7 +18,12 @@ the dimension` computed here from the program's own declarations (never from pym
   no-raise   expansion raising on a model that generates without it is a violation.
 
 A program is a subject variable `x` (category, shape/path, attributes, equations) plus helpers; the space is
-all programs within <= k deviations from the per-category base program (k = 2 quick, 3 thorough).
+all programs within <= k deviations from the per-category base program (k = 2 quick, 3 thorough).  One deviation
+(`sibs`) declares one or two further vectors y[n] / u[n] of the same kind before / after x (sizes 1, 2, 3 mixed, every
+declaration order; for outputs also of the other differentiation status) that carry every feature of x -- output,
+attributes, equation / der / delay forms, each with its own values and helpers -- so that every list in which the
+expansion replaces entries by position (outputs, delay_states / delay_arguments, the groups, the substitution lists)
+holds two and three arrays of different sizes.
 
 The statement speaks of expand_vectors, not of it in isolation: the same comparison (same options on both sides,
 expansion off vs on) is also made under every single other simplification switch that moves, removes or rewrites
@@ -72,12 +77,13 @@ CLASS_NAMES = ("A", "Bb", "Cc")
 # substitution, the zipped substitution list of the attributes): a position computed before an insertion is only seen to be
 # stale when a *second* array of the same kind follows one with a number of elements != 1.  A sibling is a top-level vector
 # y[n] / u[n] declared before or after x that carries every feature of x (see build); the configurations are all
-# declaration orders of two arrays (n = 1, 2, 3 next to x) and of three arrays of mixed sizes, and -- for the one list
+# declaration orders of two arrays (n = 1, 3 next to the x[2] of the base program; the shape deviation varies x) and of
+# three arrays of mixed sizes, and -- for the one list
 # that mixes two groups, `outputs` (differentiated outputs first, then algebraic ones) -- the same with siblings of the
 # other differentiation status (`~`: a state next to an algebraic x and vice versa).
 SIB_NAMES = ("y", "u")
 SIBS_SAME = (
-    "y[1],x", "y[2],x", "y[3],x", "x,y[1]", "x,y[2]", "x,y[3]",
+    "y[1],x", "y[3],x", "x,y[1]", "x,y[3]",
     "y[1],x,u[3]", "y[3],x,u[1]", "y[1],u[3],x", "y[3],u[1],x", "x,y[1],u[3]", "x,y[3],u[1]",
 )  # fmt: skip
 SIBS_FLIP = (
@@ -1001,6 +1007,8 @@ def evaluate(spec, seed, npoints, ctx=()):
         return {"status": "unsupported", "why": common.exc_sig(e), "text": text, "clauses": [], "arrays": 0}
     arrays = sum(1 for g in GROUPS for v in getattr(mu0, g) if v.symbol.shape[0] * v.symbol.shape[1] >= 2)
     out["arrays"], out["delays"] = arrays, len(mu0.delay_states)
+    # (declared with dimensions, whatever their size: what the expansion replaces in `outputs`)
+    out["array_outputs"] = sum(1 for n in mu0.outputs if full_dims(table[n][0]))
     clauses = out["clauses"]
     for mx in ctx_modes(ctx):
         if ctx:
@@ -1101,6 +1109,7 @@ def check_one(spec, seed, npoints, ctx):
     r = evaluate(spec, seed, npoints, ctx)
     out = {"ctx": ctx, "status": r["status"], "why": r.get("why"), "acted": r.get("acted", False), "viol": []}
     out["text"], out["arrays"], out["delays"] = r["text"], r["arrays"], r.get("delays", 0)
+    out["array_outputs"] = r.get("array_outputs", 0)
     by = {}
     for clause, mx, detail in r["clauses"]:
         by.setdefault(clause, []).append((mx, detail))
@@ -1182,6 +1191,7 @@ def run(ctx):
         res = pool.map(check, [(s, ctx.seed, npoints, cs) for s, cs in jobs], chunksize=8)
     texts, nontrivial, unsupported = set(), set(), {}
     judged = evals = delays = 0
+    multi = {"programs_with_sibling_arrays": 0, "with_2_array_outputs": 0, "with_3_array_outputs": 0, "with_2_delay_states": 0, "with_3_delay_states": 0}
     per = {}
     for (s, cs), rs in zip(jobs, res):
         for r in rs:
@@ -1208,6 +1218,12 @@ def run(ctx):
                     nontrivial.add((c, r["text"]))
                 if r["delays"]:
                     delays += 1
+                if s["sibs"] is not None:
+                    multi["programs_with_sibling_arrays"] += 1
+                if r["array_outputs"] in (2, 3):
+                    multi["with_%d_array_outputs" % r["array_outputs"]] += 1
+                if r["delays"] in (2, 3):
+                    multi["with_%d_delay_states" % r["delays"]] += 1
             for sig, msg, case in r["viol"]:
                 ctx.violation(sig, msg, case)
     order = sorted(range(len(jobs)), key=lambda i: res[i][0]["text"])
@@ -1223,6 +1239,7 @@ def run(ctx):
             "distinct_nontrivial": len(nontrivial),
             "unsupported_by_unexpanded_backend": unsupported,
             "programs_with_delay_states": delays,
+            "several_arrays_of_one_kind": multi,
             "max_deviations": K,
             "per_option_set": per,
             "option_sets": ["+".join(c) or "default" for c, _ in plan],
@@ -1235,7 +1252,10 @@ def run(ctx):
             "parameter * literal MX, array parameter, list of MX, component-level modification full / each), fixed, value "
             "form, output, equation form (whole / per element / rows+slices / for-loop / initial / none / x assigned a constant "
             "array / x assigned zeros / w = x / w = -x / x = w), der form (whole / per element / for-loop / initial / first "
-            "element), delay (whole array / in for-loop / element), Integer, neighbours; each generated unexpanded and expanded "
+            "element), delay (whole array / in for-loop / element), Integer, neighbours, siblings (%d configurations: one or two more "
+            "vectors y[n], u[n] of x's kind -- or, for outputs, of the other differentiation status -- before / after x, sizes 1, 2, "
+            "3 mixed, carrying x's output prefix, attributes, equation / der / delay forms with own values, coefficients and delay "
+            "durations); each generated unexpanded and expanded "
             "with expand_mx off and on and compared clause by clause at %d grid points per mode.  The same comparison (same "
             "options, expand_vectors off vs on) under each single other simplification switch (%s) on the switch's family "
             "(programs on which it acts, and acts on whole arrays) within <= %d deviations (%d for the switches that act on "
@@ -1243,7 +1263,7 @@ def run(ctx):
             "variable with >= 2 elements (a renaming that can go wrong) and, for a non-default option set, the options "
             "measurably change the unexpanded model (groups, attributes, equations or delay arguments differ from the "
             "default-options model)."
-            % (K, len(SHAPES), npoints, ", ".join(CONTEXT_ORDER), K, K - 1, "" if ctx.tier == "quick" else "; every pair of switches within <= %d (%d) deviations" % (K - 1, K - 2)),
+            % (K, len(SHAPES), len(ALTS["sibs"]), npoints, ", ".join(CONTEXT_ORDER), K, K - 1, "" if ctx.tier == "quick" else "; every pair of switches within <= %d (%d) deviations" % (K - 1, K - 2)),
         }
     )
     ctx.assumptions += [
@@ -1252,7 +1272,9 @@ def run(ctx):
         "programs the unexpanded backend rejects are not judged (counted under unsupported_by_unexpanded_backend)",
         "delay states are internal variables without a Modelica shape: N[i] and N[i,1] (and N for a single element) are "
         "accepted for element i of an n x 1 delay state, provided inputs and delay_states agree",
-        "order inside outputs and delay_states is not demanded; order inside the variable groups is (in place, row-major: "
+        "order inside outputs and delay_states is not demanded (they are compared as multisets: every expected scalar name "
+        "exactly once, no array name left, every name a variable of the expanded model; each delay state with the argument and "
+        "duration of its own element); order inside the variable groups is (in place, row-major: "
         "test_array_3d, test_array_expand, test_expand_vectors_derivative_naming and the positional numeric comparisons pin it), "
         "except under another simplification switch with expand_mx, where that switch moves the already expanded scalars in "
         "equation order",
